@@ -35,6 +35,13 @@ func (e *kvElection) heartbeatLoop(ctx context.Context) {
 				healthCtx, cancel := context.WithTimeout(ctx, 100*time.Millisecond)
 				healthy := e.cfg.HealthChecker.Check(healthCtx)
 				cancel()
+				// The check may have outlasted the term (its context is only
+				// advisory). Its answer then belongs to a term that is over: it
+				// must neither count against a new term this instance may have
+				// begun meanwhile, nor lead to a refresh on that term's behalf.
+				if ctx.Err() != nil {
+					return
+				}
 				if !healthy {
 					failureCount := e.healthFailureCount.Add(1)
 					log := e.getLogger()
